@@ -57,7 +57,7 @@ class NativeBackend(BackendBase):
         from edgegraph.structure import singleton
         Vertex.NEIGHBOR_CACHING = False
         Vertex._CACHE_STATS = {}
-        singleton.TrueSingleton._TrueSingleton__singleton_instances = {}
+        singleton.clear_true_singleton()      # through the public API: keeps whatever table type the code uses
 
     # ---- classes / objects
     def cls(self, name):
